@@ -214,7 +214,12 @@ def replay_processors(x, relay_norm):
 
 # names the parser must reject, and stay exactly as received (incl. ones its helpers reject implicitly)
 REJECTS = ['n;', 'n;=v', 'n;t=', 'n;t', ';t=v', 'n;t!=v', 'n;t^x=v', 'n;t=~v', 'n;a=b;c', '~;t=v', 'n{t="v"}{u="w"}', 'n{x{a="1"}',
-           'n{t=v}', 'n{="v"}', '{t="v"}', 'n{t=""}', 'n{t="v\\"}', 'n;a={;b={x"}', 'n{a;b="v"}', 'n{t="~v"}', 'n.{{.m{a="1",b="2"}']
+           'n{t=v}', 'n{="v"}', '{t="v"}', 'n{t=""}', 'n{t="v\\"}', 'n;a={;b={x"}', 'n{a;b="v"}', 'n{t="~v"}', 'n.{{.m{a="1",b="2"}',
+           'cpu{dc="",host="a"}', 'cpu{="x",host="a"}', 'cpu{a="1"b="2"}', 'cpu{a="\\y",b="2"}', 'cpu{a="1" b="2"}', 'cpu{a!="1",b="2"}',
+           'cpu{a="1",b=""}', 'cpu{a="1",="2"}', 'cpu{a="~1",b="2"}']
+# entries that violate a documented tag rule outright (empty tag / value, reserved character in a tag, value starting
+# with '~', a segment that is not tag=value, tags not separated by a comma, an illegal escape): the parser must refuse them
+MUST_REJECT = [x for x in REJECTS if x not in ('n{t=v}',)]
 
 
 def C18_rejects(i: int, relay_norm: bool) -> bool:
@@ -226,14 +231,16 @@ def C18_rejects(i: int, relay_norm: bool) -> bool:
   x = pick(REJECTS, i)
   want, ok = normalise(TS, x)
   if ok:
-    return True          # not rejected by the current parser: nothing to check for this entry
+    if x in MUST_REJECT:
+      raise AssertionError('the parser accepted %r, which violates the tag rules, and rewrote it to %r' % (x, want))
+    return True          # not a rule violation, merely not in tag syntax: nothing to check for this entry
   return _processors(CACHE, CLIENT, TS, x, relay_norm)
 
 
 def replay_rejects(i, relay_norm):
   x = REJECTS[i]
   if normalise(cutil.TaggedSeries, x)[1]:
-    return True
+    return x not in MUST_REJECT
   return _processors(real_cache, real_client, cutil.TaggedSeries, x, relay_norm)
 
 
